@@ -164,11 +164,15 @@ fn compile_adhoc_script(
         .transpose()?
         .map(|v| v as PlutusVersion)
         .unwrap_or(3);
-    let script_bytes = script.unwrap().to_vec();
+    let script_bytes = script
+        .ok_or(Error::MissingExpression("script".to_string()))?
+        .to_vec();
     let script_ref = match version {
         0 => {
             let decoded: pallas::codec::utils::KeepRaw<'_, primitives::NativeScript> =
-                minicbor::decode(&script_bytes).unwrap();
+                minicbor::decode(&script_bytes).map_err(|_| {
+                    Error::FormatError("error decoding native script cbor".to_string())
+                })?;
             let owned_script = decoded.to_owned();
             primitives::ScriptRef::NativeScript(owned_script)
         }
